@@ -152,6 +152,7 @@ def h_roundtrip(idx: int, other: int, retries: int, success: bool, has_delayed: 
     vkopf.begin_path()
     c = vkopf.cell()
     idx, other = vkopf.pin('idx', idx), vkopf.pin('other', other)
+    retries, has_user = vkopf.pin('retries', retries), vkopf.pin('has_user', has_user)
     if idx == other:
         return True
     retries, msg = vkopf.choose(retries, [0, 1, 2]), vkopf.choose(msg, [0, 1, 2, 3, 4])
@@ -236,7 +237,12 @@ def obligations():
     combos = [('annotations', 'kopf.zalando.org', True), ('smart', 'kopf.zalando.org', True), ('status', 'kopf.zalando.org', True),
               ('annotations', 'my.op.io', False), ('smart', 'my.op.io', False)]
     for i, (kind, prefix, v1) in enumerate(combos):
-        obs += split(Ob('h_roundtrip', {'storage': kind, 'prefix': prefix, 'v1': v1}, timeout=1500,
-                        tiers=('quick', 'thorough') if i < 3 else ('thorough',), twins=['roundtrip', 'drs'] if i == 0 else []),
-                     idx=[0, 1, 2, 3, 4, 5])
+        cell = {'storage': kind, 'prefix': prefix, 'v1': v1}
+        if i in (0, 2):
+            for idx in (1, 3, 4):
+                obs.append(Ob('h_roundtrip', dict(cell, pin={'idx': idx, 'other': (idx + 1) % 6, 'retries': 1, 'has_user': True}),
+                              tiers=('quick',), timeout=900))
+        obs += split(Ob('h_roundtrip', cell, timeout=1500, tiers=('thorough',)), idx=[0, 1, 2, 3, 4, 5], other=[0, 3], has_user=[False, True])
+    obs.append(Ob('h_roundtrip', {'storage': 'annotations', 'prefix': 'kopf.zalando.org', 'v1': True}, tiers=('quick', 'thorough'),
+                  timeout=300, twins=['roundtrip', 'drs'], main=False))
     return obs
